@@ -26,6 +26,10 @@ def register(COMPONENTS, g):
         return comp_generic("glob", tier, seed, NPROC, [], "glob", 900 if tier == "quick" else 3000)
     COMPONENTS["glob"] = comp_glob
 
+    def comp_report(tier, seed):
+        return comp_generic("report", tier, seed, NPROC, ["-spok", os.path.join(BUILD, "spok")], "report", 900 if tier == "quick" else 3000)
+    COMPONENTS["report"] = comp_report
+
 
 def register_props(PROPS, g):
     hash_rule = ("real files under a private root: all permutations of small base lists (with duplicates and directories), "
@@ -70,6 +74,19 @@ def register_props(PROPS, g):
                                     "fragment: segments of literal bytes and '*', or '**'; classes, '?', alternation, escapes are outside the theorem and compared with the implementation's own Match only",
                                     "a trailing '**' is anchored at a directory (a file named like the directory part matches nothing), as GlobWalk does"],
                     "trusted_extra": ["bmatcuk/doublestar GlobWalk is modelled (transliterated for the fragment), not verified"]}
+    rp_rule = ("the built spok binary in a sandbox HOME/project: random spokfiles of 1-5 tasks (dependency chains, optional file dependency, docstrings, a task named default) x 0-4 commands "
+               "printing distinct markers to stdout/stderr and exiting with statuses 1..255 at any position, sequences of 1-3 invocations under {plain,-q,-j,-f,-j -f,-q -f,--show} with edits in between; "
+               "exit status, the failing task/status named on stderr, the decoded --json document, emptiness of stdout, task messages and listings are compared with the model")
+    rp_assume = ["what each command prints and returns is an input of the model (the embedded shell interpreter is not modelled; commands are echo/exit shapes whose result is known)",
+                 "--json together with --quiet is not claimed (the two clauses of C20 contradict each other there)"]
+    PROPS["C09"] = {"components": ["report", "runcache"], "oracle": ["C09"], "decode": None,
+                    "nontrivial": ("distinct_nontrivial", "cases with at least two invocations / histories with at least two runs"),
+                    "rule": rp_rule, "assumptions": rp_assume,
+                    "trusted_extra": ["process exit plumbing (FollowTheProcess/cli, os.Exit) is observed, not modelled"]}
+    PROPS["C20"] = {"components": ["report"], "oracle": ["C20"], "decode": None,
+                    "nontrivial": ("distinct_nontrivial", "cases with at least two invocations"),
+                    "rule": rp_rule, "assumptions": rp_assume,
+                    "trusted_extra": ["encoding/json and the tabwriter are observed through decoding/parsing the real output, not modelled"]}
     PROPS["C03"] = {"components": ["graph"], "oracle": ["C03"], "decode": None,
                     "nontrivial": ("distinct_nontrivial", "cases whose selected task set (closure of the request) has at least two tasks"),
                     "rule": "spokfiles generated from dependency graphs, parsed, loaded with file.New and run with SpokFile.Run and a recording runner; "
